@@ -395,6 +395,11 @@ def payload_battery():
             cases += [("type name", tn.replace("{trip}", trip), [("string", "a")]) for tn in HOSTILE_TYPE_NAMES]
             cases += [("field type", "test/x", [(ft, "a")]) for ft in HOSTILE_FIELD_TYPES + _namespace_types()]
             # combinations with a keyword field (other class template) and with the same name without the newline
+            # reserved and underscore names AFTER a keyword field name (the keyword selects the other class template)
+            for kw_ in ("from", "class", "None"):
+                for bad_ in ("_source", "_classification", "_generated", "_version", "_x", "__init__"):
+                    cases.append(("field name", "test/x", [("string", kw_), ("string", bad_)]))
+                    cases.append(("field name", "test/x", [("string", "a"), ("string", kw_), ("uint32", bad_), ("string", "b")]))
             # a field name declared twice: the record could not have "exactly the declared fields"
             cases += [("field list", "test/x", [("string", "a"), ("varint", "a")]), ("field list", "test/x", [("string", "a"), ("string", "b"), ("string", "a")]), ("field list", "test/x", [("string", "class"), ("uint16", "class")])]
             cases += [("field name", "test/x", [("string", "class"), ("string", "a\n")]), ("field name", "test/x", [("string", "a"), ("string", "a\n")]), ("type name", "test/x\n", [("string", "class")])]
